@@ -385,6 +385,8 @@ def replay(w):
             _roots, entries = D.parse_text(w['text'])
             for q in queries_for_entries(entries, D.alphabet_of(entries), rng, 'quick', 200) * 2 + [w['query']]:
                 compare(db, roots, q, w['label'], viols, stats, text=w['text'])
+    elif w['label'].startswith('locale:'):
+        locale_work(viols)
     else:
         name = w['label'].split(':', 1)[1]
         path = dict(D.dat_files())[name]
